@@ -184,7 +184,8 @@ def other_cases(ctx, n):
 def run(ctx):
     heap_clause(ctx)             # the list clause over the heap IR: generated obligations + concrete search (self-contained)
     cases = list_cases(ctx, 500 if ctx.tier == 'quick' else 60000)
-    got = lib.run_impl_py('c06', cases, timeout=300 if ctx.tier == 'quick' else 1800)     # (a looping defect must not hold the quick tier for half an hour)
+    # (a defect that makes a query loop / grow a list for ever must end as a failing case, not exhaust the machine)
+    got = lib.run_impl_py('c06', cases, timeout=300 if ctx.tier == 'quick' else 1800, mem_limit=6 << 30)
     exp = [{'sources_ok': True, 'alias': False} for _ in cases]
     ctx.compare(cases, exp, got, THEOREM,
                 rel=lambda c, e, g: isinstance(g, dict) and g.get('sources_ok') is e['sources_ok'] and g.get('alias') is e['alias']
